@@ -51,6 +51,13 @@ fn gen_text(u: &mut Unstructured, big: bool) -> Vec<u8> {
                 let c = (b'a' + (i % 26) as u8) as char;
                 std::iter::repeat(c).take(if i % 3 == 0 { 10_000 } else { 8192 - 1 + i % 3 }).collect()
             }
+            // a first line that a "smart" reader might treat specially: byte-order mark, comment markers
+            7 if i == 0 => match n % 4 {
+                0 => "\u{feff}key0".into(),
+                2 => "\u{feff}".into(),
+                3 => "#key0".into(),
+                _ => "key0".into(),
+            },
             7 => format!("key{i}"),
             _ => {
                 let l = u.int_in_range(0usize..=20).unwrap_or(0);
@@ -254,10 +261,10 @@ impl Property for C20 {
         "C20"
     }
     fn plan(&self, tier: Tier) -> Vec<Segment> {
-        vec![Segment::random("histories", tier.pick(60_000, 600_000), &[0], 48, 700), Segment::random("big-inputs", tier.pick(1_500, 20_000), &[1], 64, 3000)]
+        vec![Segment::random("histories", tier.pick(480_000, 18_000_000), &[0], 48, 700), Segment::random("big-inputs", tier.pick(12_000, 600_000), &[1], 64, 3000)]
     }
     fn rule(&self) -> &'static str {
-        "case = (lender kind in {LineLender over Cursor / BufReader<File> / small-capacity BufReader, ZstdLineLender over Cursor / File, GzipLineLender over Cursor / File, FromIntoIterator over Vec<u32> / Range / Vec<String>}, optional take(m) with m in {0,1,len-1,len,len+1,..}, input text with empty lines, CRLF/LF/mixed terminators, lone CR, multi-byte characters, lines longer than the BufReader, with/without final terminator, history of Next xj / Rewind with <=7 rewinds) decoded from bytes; oracle = the harness' own line splitter (resp. the item vector) truncated to m; every item of every pass compared, None exactly at the end, rewind() must be Ok. Non-trivial: a rewind after >=1 consumed item on a non-empty input; distinct = distinct hash of the decoded case."
+        "case = (lender kind in {LineLender over Cursor / BufReader<File> / small-capacity BufReader, ZstdLineLender over Cursor / File, GzipLineLender over Cursor / File, FromIntoIterator over Vec<u32> / Range / Vec<String>}, optional take(m) with m in {0,1,len-1,len,len+1,..}, input text with empty lines, CRLF/LF/mixed terminators, lone CR, multi-byte characters, a first line starting with a UTF-8 byte-order mark or '#', lines longer than the BufReader, with/without final terminator, history of Next xj / Rewind with <=7 rewinds) decoded from bytes; oracle = the harness' own line splitter (resp. the item vector) truncated to m; every item of every pass compared, None exactly at the end, rewind() must be Ok. Non-trivial: a rewind after >=1 consumed item on a non-empty input; distinct = distinct hash of the decoded case."
     }
     fn run(&self, data: &[u8], cx: &mut Ctx) -> R {
         let (mode, rest) = data.split_first().unwrap_or((&0, &[]));
@@ -271,6 +278,7 @@ impl Property for C20 {
         cx.label_if(c.text.len() > 131072, "input>128KiB");
         cx.label_if(!c.text.is_empty() && !c.text.ends_with(b"\n"), "no_final_newline");
         cx.label_if(c.text.windows(2).any(|w| w == b"\r\n"), "crlf");
+        cx.label_if(c.text.starts_with(&[0xEF, 0xBB, 0xBF]), "bom_first");
         let show_str: &dyn Fn(&str) -> String = &|s: &str| s.to_string();
         match c.kind {
             0 => run_kind!(cx, c, lines, show_str, LineLender::new(Cursor::new(c.text.clone()))),
